@@ -187,6 +187,8 @@ pub struct World {
     /// adversarial account choice: liquidity / fee-update instructions name another tick array OF THE SAME POOL for the position's
     /// lower (0) / upper (1) bound, shifted by this many arrays, or the two arrays exchanged (2)
     pub array_skew: Option<(u8, i32)>,
+    /// tick arrays appended as supplemental accounts to every swap_v2 built by `ix_swap_v2` (set around one instruction by `Op::Supplemented`)
+    pub swap_supplemental: Vec<Pubkey>,
     /// first three bytes of the next position / bundle mint keys (a valid SPL Multisig header m, n, is_initialized), see C04
     pub mint_header: Option<[u8; 3]>,
 }
@@ -203,7 +205,7 @@ impl World {
         let native_loader = Pubkey::from_str("NativeLoader1111111111111111111111111111111").unwrap();
         let prog = |owner: Pubkey| Acct { lamports: 1, data: vec![], owner, executable: true };
         bank.set(SYS, prog(native_loader));
-        for p in [TOKEN, TOKEN22, ATA, MEMO, WP, metadata_program(), crate::rt::hook_program(1), crate::rt::hook_program(2)] {
+        for p in [TOKEN, TOKEN22, ATA, MEMO, WP, metadata_program(), crate::rt::hook_program(1), crate::rt::hook_program(2), crate::rt::memo_v1_program(), crate::rt::obliging_program()] {
             bank.set(p, prog(loader));
         }
         bank.set(
@@ -211,7 +213,7 @@ impl World {
             Acct { lamports: 1, data: bincode::serialize(&solana_program::rent::Rent::default()).unwrap(), owner: sysvar::ID, executable: false },
         );
         let admin = admin_key();
-        let mut w = World { bank, next: 1, admin, configs: vec![], pools: vec![], users: vec![], positions: vec![], bundles: vec![], array_skew: None, mint_header: None };
+        let mut w = World { bank, next: 1, admin, configs: vec![], pools: vec![], users: vec![], positions: vec![], bundles: vec![], array_skew: None, swap_supplemental: vec![], mint_header: None };
         w.fund_sys(admin);
         w
     }
@@ -687,7 +689,7 @@ impl World {
     }
     pub fn ix_swap_v2(&self, pool: usize, user: usize, p: &SwapParams) -> Instruction {
         let tas = self.swap_arrays(pool, p.a_to_b);
-        self.ix_swap_v2_with_arrays(pool, user, p, tas, &[])
+        self.ix_swap_v2_with_arrays(pool, user, p, tas, &self.swap_supplemental.clone())
     }
     pub fn ix_swap_v2_with_arrays(&self, pool: usize, user: usize, p: &SwapParams, tas: [Pubkey; 3], supplemental: &[Pubkey]) -> Instruction {
         let pl = &self.pools[pool];
